@@ -290,7 +290,7 @@ class EnumeratedParameterType(ParameterType):
                 *(
                     elmaker.Enumeration(
                         label=label,
-                        value=str(value.decode(self.encoding.encoding))
+                        value=str(value.decode(self.encoding._python_codec))
                         if isinstance(self.encoding, encodings.StringDataEncoding)
                         else str(value)
                     )
@@ -338,7 +338,8 @@ class EnumeratedParameterType(ParameterType):
 
         if isinstance(encoding, encodings.StringDataEncoding):
             return {
-                bytes(el.attrib['value'], encoding=encoding.encoding): el.attrib['label']
+                # the codec the packet data is decoded with: no byte order mark, declared byte order
+                bytes(el.attrib['value'], encoding=encoding._python_codec): el.attrib['label']
                 for el in enumeration_list.iterfind('*')
             }
 
